@@ -690,7 +690,7 @@ def replay_trunk(r):
 def run(ctx):
     ctx.level = 'other'
     ctx.drop('type annotations', 'docstrings')
-    ctx.trust('EventEmitter.emit calls every registered listener once in registration order (tools/events.py; bounded only)', 'Tree._build is interpreted on eight branch families (splits of width 1-4, shared prefixes, a start depth > 0) with its two callees under contract; arbitrary families are covered by the bounded stand-in: runtime contracts on every finished tableau of the corpus',
+    ctx.trust('Tree._build is interpreted on eight branch families (splits of width 1-4, shared prefixes, a start depth > 0) with its two callees under contract; arbitrary families are covered by the bounded stand-in: runtime contracts on every finished tableau of the corpus',
               'Branch.append contracts come from C06; AdzHelper._apply from the shared structural obligation')
     ctx.assume('CPython semantics of the interpreted subset as encoded by pyvc/interp.py')
     ctx.explanation = ('Proved: the five listener closures of Tableau.__listen_on (interpreted from source over token models), Tree._build (segment/split on eight branch families, callees under contract), Tree._build_branches (symbolic child counts: sums and minimum), Branch.closed, AdzHelper._apply. '
@@ -699,6 +699,8 @@ def run(ctx):
     build_tree(ctx)
     stats_obligation(ctx)
     trunk_obligations(ctx)
+    from checks import events_ob
+    events_ob.events_obligations(ctx, 'C16'); events_ob.register_replayers(ctx, 'C16')
     listeners(ctx)
     branch_methods(ctx)
     structs.adz_apply_obligations(ctx, 'C16')
